@@ -52,6 +52,47 @@ def _oor_annot(q):
     return bool(w(q[1]))
 
 
+def _const_int(n):
+    if isinstance(n, ast.Constant) and isinstance(n.value, int) and not isinstance(n.value, bool):
+        return n.value
+    if isinstance(n, ast.UnaryOp) and isinstance(n.op, ast.USub) and isinstance(n.operand, ast.Constant) and \
+            isinstance(n.operand.value, int) and not isinstance(n.operand.value, bool):
+        return -n.operand.value
+    return None
+
+
+class _MarkBeforeStart(ast.NodeTransformer):
+    "replace every literal[-k] with k > len(literal) (Python: IndexError, always) by an opaque name"
+    def __init__(self):
+        self.n = 0
+
+    def visit_Subscript(self, node):
+        self.generic_visit(node)
+        k = _const_int(node.slice)
+        if isinstance(node.value, (ast.Tuple, ast.List)) and k is not None and k < -len(node.value.elts):
+            self.n += 1
+            return ast.Name(id="ODD_PROJECTION", ctx=ast.Load())
+        return node
+
+
+# (source, contains a constant index beyond the end of a tuple / list literal)
+WRITTEN = [
+    ("Select(ds, lambda e: ()[0])", True), ("Select(ds, lambda e: [][0])", True), ("Select(ds, lambda e: [][False])", True),
+    ("Select(ds, lambda e: (lambda t: t[0])(()))", True), ("Select(ds, lambda e: First(Select(e.jets, lambda j: ()))[0])", True),
+    ("Select(Select(ds, lambda e: []), lambda r: r[1])", True), ("Select(ds, lambda e: {}['a'])", False), ("Select(ds, lambda e: {}.a)", False),
+    ("Select(ds, lambda e: ()[-1])", False), ("Select(ds, lambda e: [][0:1])", False),
+    ("Select(ds, lambda e: (*e.jets, e.a)[0])", False), ("Select(ds, lambda e: [*e.jets, e.a][1])", False),
+    ("Select(ds, lambda e: (e.a, *e.jets)[0])", False), ("Select(Select(ds, lambda e: (*e.jets, e.a)), lambda t: t[0])", False),
+    ("Select(ds, lambda e: {**{'a': e.a}, 'b': e.b}['b'])", False), ("Select(ds, lambda e: {'b': e.b, **{'b': e.a}}['b'])", False),
+    ("Select(ds, lambda e: {**{'a': e.a}, 'b': e.b}.b)", False),
+    ("Select(ds, lambda e: {'a': e.a, 'a': e.b}['a'])", False), ("Select(ds, lambda e: {'a': e.a, 'a': e.b}.a)", False),
+    ("Select(ds, lambda e: {1: e.a, True: e.b}[1])", False), ("Select(ds, lambda e: {0: e.a, False: e.b, 0.0: e.a + e.b}[0])", False),
+    ("Select(ds, lambda e: {e.a: 1, 'k': e.b}['k'])", False), ("Select(ds, lambda e: {e.a: 1, e.b: 2}[e.a])", False),
+    ("Select(Select(ds, lambda e: {'a': e.a, 'a': e.b}), lambda d: d.a)", False),
+    ("Select(ds, lambda e: (e.a, e.b)[True])", False), ("Select(ds, lambda e: [e.a, e.b][False])", False),
+]
+
+
 class C18(Check):
     pid = "C18"
     title = "Simplification is total on well-formed queries"
@@ -60,7 +101,9 @@ class C18(Check):
             "keys in every operand position) is given to the real simplify_chained_calls; the outcome must "
             "be a returned AST that ast.unparse and compile accept WITHOUT any repair, or FuncADLIndexError "
             "only when the query contains a constant index beyond the end of a tuple/list; odd projections "
-            "are additionally evaluated on every dataset against the original. Non-trivial = the simplifier "
+            "are additionally evaluated on every dataset against the original; a negative constant index BEFORE THE START of a "
+            "literal (always an IndexError in Python) that is still live in the simplified query - decided by simplifying the "
+            "query with that projection replaced by an opaque name - must not have become a value. Non-trivial = the simplifier "
             "changed the AST")
     assumptions = [
         "termination is decided by a 20 s alarm and the interpreter's recursion limit per query",
@@ -88,6 +131,10 @@ class C18(Check):
             out.append(Space(f"odd<={hi}", qspaces.describe("odd", 3, hi, pool),
                              (lambda hi=hi, pool=pool: qspaces.enumerate_sources("odd", 3, hi, pool, annot=_oor_annot)),
                              runner="run_odd"))
+        out.append(Space("written-out literals", {"cases": "empty tuple / list / dict literals under constant selectors (directly, through a called "
+                                                          "lambda, a fused stage, First), starred elements, dictionary spreads, duplicate and "
+                                                          "equal-but-differently-typed keys, non-constant keys"},
+                         [(s, oor) for s, oor in WRITTEN], runner="run_odd"))
         return out
 
     def _simplify(self, q):
@@ -148,7 +195,33 @@ class C18(Check):
             if kind:
                 res["viol"].append({"kind": "odd-projection-" + kind, "canon": src,
                                     "msg": msg + " ; simplified: " + ast.unparse(r)[:200]})
+            elif "[-" in src:
+                v = self._before_start(q, r, src)
+                if v:
+                    res["viol"].append(v)
         return res
+
+    def _before_start(self, q, r, src):
+        """A negative constant index before the start of a literal raises IndexError in Python, always.  If the
+        projection is still LIVE in the simplified query (decided by simplifying the query with the projection replaced
+        by an opaque name and looking for that name in the result), the simplified query must not turn the error into a
+        value on any dataset on which the original raises it."""
+        from .. import refsem
+
+        mk = _MarkBeforeStart()
+        q2 = mk.visit(copy.deepcopy(q))
+        if not mk.n:
+            return None
+        st, r2 = self._simplify(q2)
+        if st != "ok" or not any(isinstance(n, ast.Name) and n.id == "ODD_PROJECTION" for n in ast.walk(r2)):
+            return None  # the projection is dropped as dead code (or the marked query is refused): nothing to demand
+        f0, f1 = refsem.compile_query(q), refsem.compile_query(r)
+        for i, d in enumerate(refsem.datasets(False)):
+            a, b = refsem.evaluate(f0, d), refsem.evaluate(f1, d)
+            if a == ("err", "IndexError") and b[0] == "ok":
+                return {"kind": "odd-projection-error-became-a-value", "canon": src,
+                        "msg": f"dataset#{i}: Python raises IndexError, simplified query gives {str(b[1])[:100]} ; simplified: {ast.unparse(r)[:200]}"}
+        return None
 
     def run_wf(self, src):
         return self._run(src, False)
